@@ -36,6 +36,10 @@ def main(tier, replay=None):
                                   "plan": [("kill", rnd.randrange(2, 6), rnd.random() < 0.5), ("kill", rnd.randrange(1, 5), False), ("more", w + 2)]})
                 else:
                     specs.append({"n": n, "workers": 1, "steps": 10, "seed": seed, "sched_seed": 1, "plan": [("more", 5), ("more", 4)]})
+    # move-side draws: every kind of move, wire fencing also in [0+] (the zero swap then uses its high-acceptance rule)
+    for i, seed in enumerate(seeds[:3] if q else seeds):
+        for mv in (["sh", "wf", "wf", "sh"], ["sh", "wf", "sh", "wf"]):
+            specs.append({"n": 4, "workers": 1 + i % 3, "steps": 30 if q else 60, "seed": seed, "sched_seed": rnd.randrange(10 ** 6), "moves": mv})
     specs.sort(key=lambda s: (s["n"], s["workers"], s["seed"]))
     sc.random_runs(specs)
     sc.replay_behaviours("N3W2S4_kill", {"N": 3, "Workers": 2, "Steps": 4, "MaxPn": 14, "MaxRestarts": 2, "MoreSteps": 2}, 80 if q else 800, 22)
